@@ -57,6 +57,10 @@ func histWorlds() []histWorld {
 		{Name: "userset+computed", Type: "doc", Rel: "r0", U: ref.Universe{"user": {"user:a"}, "group": {"group:1"}, "doc": {"doc:1", "doc:2"}},
 			M:    &ref.Model{Types: map[string]map[string]*ref.RelDef{"user": {}, "group": {"member": rd(ref.This(), user)}, "doc": {"r1": rd(ref.This(), member), "r0": rd(ref.Bin(ref.KUnion, ref.Comp("r1"), ref.This()), user)}}},
 			Pool: []ref.Tuple{tp("doc:1", "r1", "group:1#member"), tp("group:1", "member", "user:a"), tp("doc:2", "r0", "user:a")}},
+		{Name: "nested-userset", Type: "doc", Rel: "r0", U: ref.Universe{"user": {"user:a"}, "group": {"group:1"}, "doc": {"doc:1", "doc:2"}},
+			// three levels: the default engine dispatches group#member (weight 2) as a SUB-PROBLEM of doc#r0 whatever the planner picks
+			M:    &ref.Model{Types: map[string]map[string]*ref.RelDef{"user": {}, "group": {"r1": rd(ref.This(), user), "member": rd(ref.This(), user, ref.Restr{Type: "group", Rel: "r1"})}, "doc": {"r0": rd(ref.This(), member)}}},
+			Pool: []ref.Tuple{tp("doc:1", "r0", "group:1#member"), tp("group:1", "member", "group:1#r1"), tp("group:1", "r1", "user:a")}},
 		{Name: "recursive-userset", Type: "group", Rel: "member", U: ref.Universe{"user": {"user:a"}, "group": {"group:1", "group:2"}},
 			M:    &ref.Model{Types: map[string]map[string]*ref.RelDef{"user": {}, "group": {"member": rd(ref.This(), user, member)}}},
 			Pool: []ref.Tuple{tp("group:1", "member", "group:2#member"), tp("group:2", "member", "user:a"), tp("group:1", "member", "user:a")}},
@@ -355,7 +359,7 @@ var verbose11 bool
 // C11: cache controller bounds staleness.
 func C11(o *core.Options) int {
 	r := core.NewReport(o, "model_checking",
-		"every history over {write/delete each pool tuple, bulk write of 60 unrelated tuples (more than one changelog page), cached-mode request vector, 'inv' = cached-mode request that triggers the cache controller followed by waiting for the invalidation run to complete, cached-mode request vector whose answers are CHECKED} up to the depth bound, replayed from scratch per history, with the cache controller on together with either the query cache or the iterator caches, default and weighted-graph engines; invariant: a checked vector that follows an 'inv' which itself follows the last write equals the reference for the current store (staleness before that, including mixtures of stale and fresh sub-answers, is allowed behaviour)")
+		"every history over {write/delete each pool tuple, bulk write of 60 unrelated tuples (more than one changelog page), cached-mode request vector, 'inv' = cached-mode request that triggers the cache controller followed by waiting for the invalidation run to complete, cached-mode request vector whose answers are CHECKED} up to the depth bound (quick: the toggles of the tuples deeper in an expansion run in a second pass over {populate, invalidate, check, those toggles} that starts from the FULL store), replayed from scratch per history, with the cache controller on together with either the query cache or the iterator caches, default and weighted-graph engines; invariant: a checked vector that follows an 'inv' which itself follows the last write equals the reference for the current store (staleness before that, including mixtures of stale and fresh sub-answers, is allowed behaviour)")
 	r.Assume("memory datastore; real clock with cache TTLs of one hour and controller interval 1ns (every cached-mode request may start an invalidation run); completion of a run is observed through an exported wait on the controller's WaitGroup (overlay file x/internal/cachecontroller)",
 		"TTL-window straddling, clock advances, the invalidation interval and runs overlapping with requests and writes need a controllable clock: they are not decided by the Server-API histories but by the component-level harness on a harness clock (coverage.clock_controlled_component_level, binary cctl)")
 	worlds := histWorlds()
@@ -415,7 +419,21 @@ func C11(o *core.Options) int {
 			alpha = append(alpha[:4], alpha[4:6]...) // two toggles in quick
 		}
 		for _, f := range flagSets {
-			enumerateHistories(alpha, depth, "chk", func(h []string) {
+			enum := func(fn func(h []string)) {
+				enumerateHistories(alpha, depth, "chk", fn)
+				if !o.Thorough() && len(w.Pool) > 2 {
+					// quick: the remaining toggles (tuples deeper in the expansion) with the events that matter
+					// for them: populate, write, invalidate, check
+					rest := []string{"qc", "inv", "chk"}
+					for i := 2; i < len(w.Pool); i++ {
+						rest = append(rest, fmt.Sprintf("t%d", i))
+					}
+					// ... starting from the FULL store (event "full" writes every pool tuple in one request): chains
+					// of three tuples would otherwise need three writes before the first interesting event
+					enumerateHistories(rest, depth-1, "chk", func(h []string) { fn(append([]string{"full"}, h...)) })
+				}
+			}
+			enum(func(h []string) {
 				nw, nq, nb := 0, 0, 0
 				for _, e := range h {
 					if e[0] == 't' {
@@ -427,6 +445,9 @@ func C11(o *core.Options) int {
 					if e == "bulk" {
 						nb++
 					}
+				}
+				if h[0] == "full" {
+					nw++
 				}
 				if nw == 0 || nq == 0 || nb > 1 {
 					return
@@ -459,11 +480,12 @@ func C11(o *core.Options) int {
 		if err != nil {
 			panic(err)
 		}
-		defer env.Close()
 		ctl, _ := env.S.VerifCacheController().(*cachecontroller.InMemoryCacheController)
 		if ctl == nil {
 			panic("no in-memory cache controller on the server")
 		}
+		// the last request may have started an invalidation run: let it finish before the server is closed
+		defer func() { ctl.VerifQuiesce(); env.Close() }()
 		present := map[int]bool{}
 		var pastVectors [][]string
 		cur := func() []ref.Tuple {
@@ -494,6 +516,21 @@ func C11(o *core.Options) int {
 				present[idx] = !present[idx]
 				pastVectors = append(pastVectors, refVector(j.w, cur()))
 				invAfterLastWrite = false
+			case e == "full":
+				var ts []ref.Tuple
+				for k, t := range j.w.Pool {
+					if !present[k] {
+						ts = append(ts, t)
+						present[k] = true
+					}
+				}
+				if len(ts) > 0 {
+					if err := env.Write(ts, env.ModelID); err != nil {
+						panic(err)
+					}
+				}
+				pastVectors = append(pastVectors, refVector(j.w, cur()))
+				invAfterLastWrite = false
 			case e == "bulk":
 				var ts []ref.Tuple
 				for k := 0; k < 60; k++ {
@@ -513,10 +550,10 @@ func C11(o *core.Options) int {
 				apiVector(env, j.w, openfgav1.ConsistencyPreference_UNSPECIFIED)
 			case e == "inv":
 				env.Check(j.w.U[j.w.Type][0], j.w.Rel, "user:a", nil, nil)
-				ctl.VerifWait()
+				ctl.VerifQuiesce()
 				// a run that STARTED after the last write has now completed (the trigger request came after it)
 				ctl.InvalidateIfNeeded(context.Background(), env.StoreID)
-				ctl.VerifWait()
+				ctl.VerifQuiesce()
 				invAfterLastWrite = true
 			case e == "chk":
 				got := apiVector(env, j.w, openfgav1.ConsistencyPreference_UNSPECIFIED)
